@@ -19,7 +19,16 @@ def run_property(prop, repo_root, tier, seed=0, only_rule=None, verbose=False, o
     repo = Repo(repo_root, overlay=overlay)
     ctx = Ctx(prop, repo, tier=tier, seed=seed, only_rule=only_rule, verbose=verbose, quiet=quiet)
     mod = importlib.import_module('sa.rules.' + prop.lower())
-    explanation = mod.run(ctx)
+    try:
+        explanation = mod.run(ctx)
+    except AnalysisError as ex_:
+        # a rule lost its footing part-way: what was established before stands - a violation found is a violation (reported, with a note
+        # that the remaining rules were not evaluated); without one the run is undecided as a whole
+        if not ctx.split_known()[0]:
+            raise
+        explanation = 'INCOMPLETE: the analysis stopped at `%s`; the violations listed were established before that point' % str(ex_)[:300]
+        ctx.note(explanation)
+        ctx.floor_failures = []
     if getattr(repo, 'renames', None):
         ctx.assumptions = list(getattr(ctx, 'assumptions', None) or []) + \
             ['identifiers mapped back to their pinned names before the analysis (sa/rename.py): ' + '; '.join(repo.renames[:40])]
